@@ -77,6 +77,11 @@ def obligations(cls):
                 out.append({"kind": "two-of-exactly-one", "a": g[i], "b": g[j], "group": list(g)})
     if M.has_list(cls) and not M.list_elem(cls):
         out.append({"kind": "foreign-member-type"})
+        # a type the class does know - as a *singular* child - is not a permitted list member either
+        permitted = {c.__name__ for c in mt.values()}
+        for a, k, t in d:
+            if k == "sub" and t.__type__.__name__ not in permitted:
+                out.append({"kind": "foreign-member-type", "member": t.__type__.__name__})
     out.append({"kind": "undeclared-keyword"})
     for c in CUSTOM.get(name, []):
         out.append({"kind": "custom", "which": c})
@@ -241,7 +246,7 @@ def build_violation(ob, base=None):
     elif kind == "foreign-member-type":
         desc = _with(cls, [], base)
         permitted = {c.__name__ for c in M.member_types(cls).values()}
-        foreign = "STATUS" if "STATUS" not in permitted else "BAL"
+        foreign = ob.get("member") or ("STATUS" if "STATUS" not in permitted else "BAL")
         desc["list"].append(M.minimal(M.universe()[foreign]))
     elif kind == "undeclared-keyword":
         desc = _with(cls, [], base)
